@@ -134,3 +134,53 @@ func Battery(r *rig.Rng, cart uint8) *Program {
 	h.B(rom[:0x4000])
 	return &Program{ROM: rom, Hash: h.Sum(), CartType: cart, Items: 24, Seed: "battery"}
 }
+
+// LowAreaRemap builds a 1 MiB MBC1 program that executes from 0000-3FFF while it remaps that
+// area: in mode 1 the BANK2 register selects which of banks 00/20 appears there. The
+// two banks hold instruction streams of identical layout (same lengths at the same addresses)
+// but different opcodes and operands, and the register stores that switch between them sit at the
+// same addresses in all of them, so execution carries on in another bank's code after every
+// switch.
+func LowAreaRemap(r *rig.Rng) *Program {
+	rom := rig.BlankROM(0x01, 5, 0)
+	banks := []int{0x00, 0x20} // BANK2 values 2 and 3 alias these in a 64-bank image
+	put := func(pc int, per func(b int) []byte) int {
+		n := 0
+		for bi, b := range banks {
+			code := per(bi)
+			copy(rom[b*0x4000+pc:], code)
+			n = len(code)
+		}
+		return pc + n
+	}
+	same := func(code ...byte) func(int) []byte { return func(int) []byte { return code } }
+	for _, b := range banks {
+		rig.Put(rom, b*0x4000+0x100, 0x00, 0xc3, 0x50, 0x01)
+		rom[b*0x4000+0x147], rom[b*0x4000+0x148], rom[b*0x4000+0x149] = 0x01, 5, 0
+	}
+	pc := 0x150
+	pc = put(pc, same(0x31, 0xf0, 0xdf))             // LD SP,DFF0
+	pc = put(pc, same(0x3e, 0x01, 0xea, 0x00, 0x60)) // mode 1
+	loop := pc
+	one := [][]byte{{0x04, 0x0c, 0x14, 0x1c}, {0x05, 0x0d, 0x15, 0x1d}, {0x3c, 0x24, 0x2c, 0x07}, {0x3d, 0x25, 0x2d, 0x0f}}
+	two := []byte{0x06, 0x0e, 0x16, 0x1e}
+	items := 0
+	for pc < 0x3e00 && items < 200 {
+		for k := r.Intn(6); k > 0; k-- {
+			if r.Bool() {
+				sel := r.Intn(4)
+				pc = put(pc, func(bi int) []byte { return []byte{one[bi][sel]} })
+			} else {
+				v := r.U8()
+				pc = put(pc, func(bi int) []byte { return []byte{two[bi], v + uint8(bi)*0x11} })
+			}
+		}
+		pc = put(pc, same(0x3e, uint8(r.Intn(4)), 0xea, 0x00, 0x40)) // BANK2 <- 0..3
+		items++
+	}
+	pc = put(pc, same(0xc3, uint8(loop), uint8(loop>>8)))
+	h := rig.NewHasher()
+	h.B(rom[:0x4000])
+	h.B(rom[0x20*0x4000 : 0x21*0x4000])
+	return &Program{ROM: rom, Hash: h.Sum(), CartType: 0x01, Items: items, Seed: "low-area-remap"}
+}
